@@ -81,6 +81,8 @@ pub fn show_event(e: &ServerSessionEvent) -> String {
         PlayStreamFinished { app_name, stream_key } => format!("E:PlayFin:{}:{}", h(app_name), h(stream_key)),
         AcknowledgementReceived { bytes_received } => format!("E:Ack:{}", bytes_received),
         PingResponseReceived { timestamp } => format!("E:Pong:{}", timestamp.value),
+        #[allow(unreachable_patterns)]
+        _ => "E:Other".into(),
     }
 }
 
@@ -94,6 +96,8 @@ pub fn show_server_err(e: &ServerSessionError) -> String {
         ServerSessionError::NoAppNameForConnectionRequest => "ERR:NoAppName".into(),
         ServerSessionError::InvalidRequestId => "ERR:InvalidRequestId".into(),
         ServerSessionError::ActionAttemptedOnInactiveStream { stream_id, .. } => format!("ERR:InactiveStream:{}", stream_id),
+        #[allow(unreachable_patterns)]
+        _ => "ERR:Other".into(),
     }
 }
 
